@@ -42,6 +42,11 @@ use sciparse::{
 use snap_dataplane::{dispatcher::Dispatcher, tunnel_gateway::gateway::verif_hooks as gw};
 use vcommon::*;
 
+/// round-robin selectors: every error kind / routing error / scenario appears in every run,
+/// whatever the seed (the random stream only chooses sizes, addresses, contents)
+static RR: [std::sync::atomic::AtomicUsize; 4] = [const { std::sync::atomic::AtomicUsize::new(0) }; 4];
+fn rr(k: usize, n: usize) -> usize { RR[k].fetch_add(1, std::sync::atomic::Ordering::Relaxed) % n }
+
 // ---------------------------------------------------------------------------------------------
 // independent RFC 1071
 // ---------------------------------------------------------------------------------------------
@@ -361,7 +366,7 @@ fn rnd_emsg(rng: &mut Rng, off: Vec<u8>) -> (ScmpMessage, [u64; 5]) {
     let f16 = rng.below(65536) as u16;
     let g16 = rng.below(65536) as u16;
     let ia = IsdAsn(*rng.pick(&[IA_A, IA_C, 0, u64::MAX]));
-    match rng.below(5) {
+    match rr(0, 5) {
         0 => (ScmpDestinationUnreachable::new(ScmpDestinationUnreachableCode::from(code), off).into(), [1, code as u64, 0, 0, 0]),
         1 => (ScmpPacketTooBig::new(f16, off).into(), [2, 0, f16 as u64, 0, 0]),
         2 => (ScmpParameterProblem::new(ScmpParameterProblemCode::from(code), f16, off).into(), [4, code as u64, f16 as u64, 0, 0]),
@@ -539,7 +544,7 @@ fn gen_sim_on(rng: &mut Rng, o: &mut Out, vb: Vec<u8>, kind: String) {
         // the router's own routing errors: StandardRoutingError::to_scmp_error quotes the whole packet
         use pocketscion::network::scion::routing::spec::standard::StandardRoutingError as E;
         let cd = rng.chance(1, 2);
-        let e = match rng.below(11) {
+        let e = match rr(1, 11) {
             0 => E::NonLocalDelivery,
             1 => E::UnknownIngressInterface { hop_index: 0, if_id: 7, cons_dir: cd },
             2 => E::InvalidIngressInterface { hop_index: 1, expected: 1, found: 2, cons_dir: cd },
@@ -635,6 +640,138 @@ fn gen_sim_quote_mismatch(o: &mut Out, vb: &[u8], off: &[u8]) {
            "StandardRoutingError::to_scmp_error does not quote the offending packet".into(), true);
 }
 
+// ---------------------------------------------------------------------------------------------
+// pocketscion's routing simulator: errors raised on a real path through a real topology
+// ---------------------------------------------------------------------------------------------
+struct Capture(std::sync::Arc<std::sync::Mutex<Vec<Vec<u8>>>>);
+impl pocketscion::network::local::receivers::Receiver for Capture {
+    fn receive_packet(&self, packet: &ScionRawPacketView) { self.0.lock().unwrap().push(packet.as_slice().to_vec()); }
+}
+struct World {
+    topo: pocketscion::network::scion::topology::ScionTopology,
+    ts: u32,
+    /// (src ia, dst ia, raw standard path bytes, interfaces along the path)
+    paths: Vec<(u64, u64, Vec<u8>, Vec<(u64, u16)>)>,
+}
+const C1: u64 = (1u64 << 48) | 0xff00_0000_0110;
+const C2: u64 = (1u64 << 48) | 0xff00_0000_0120;
+const L1: u64 = (1u64 << 48) | 0xff00_0000_0111;
+const L2: u64 = (1u64 << 48) | 0xff00_0000_0121;
+fn build_world() -> Option<World> {
+    use pocketscion::network::scion::{segment::registry::SegmentRegistry,
+        topology::{ScionAs, ScionLink, ScionLinkType, ScionTopologyBuilder}};
+    let mut b = ScionTopologyBuilder::new();
+    b.add_as(ScionAs::new_core(IsdAsn(C1))).ok()?;
+    b.add_as(ScionAs::new_core(IsdAsn(C2))).ok()?;
+    b.add_as(ScionAs::new(IsdAsn(L1))).ok()?;
+    b.add_as(ScionAs::new(IsdAsn(L2))).ok()?;
+    b.add_link(ScionLink::new(IsdAsn(C1), 1, ScionLinkType::Core, IsdAsn(C2), 2).ok()?).ok()?;
+    b.add_link(ScionLink::new(IsdAsn(C1), 3, ScionLinkType::Parent, IsdAsn(L1), 4).ok()?).ok()?;
+    b.add_link(ScionLink::new(IsdAsn(C2), 5, ScionLinkType::Parent, IsdAsn(L2), 6).ok()?).ok()?;
+    let topo = b.build().ok()?;
+    let ts: u32 = 1_700_000_000;
+    let when = chrono::DateTime::<chrono::Utc>::from_timestamp(ts as i64, 0)?;
+    let reg = SegmentRegistry::from_topology(&topo);
+    let mut paths = vec![];
+    for (s, d) in [(L1, L2), (L2, L1), (L1, C2), (C1, L2), (L1, C1), (C2, C1)] {
+        let Ok(ps) = reg.paths(IsdAsn(s), IsdAsn(d), when, &topo) else { continue };
+        for p in ps {
+            let sciparse::dataplane_path::view::ScionDpPathView::Standard(v) = p.dp_path() else { continue };
+            let ifs: Vec<(u64, u16)> = p.metadata().and_then(|m| m.interfaces.as_ref())
+                .map(|v| v.iter().map(|i| (i.interface.isd_asn.0, i.interface.id)).collect()).unwrap_or_default();
+            paths.push((s, d, v.as_slice().to_vec(), ifs));
+        }
+    }
+    if paths.is_empty() { return None; }
+    Some(World { topo, ts, paths })
+}
+
+/// One packet through the real routing simulator (`ScionNetworkSim::simulate_traversal` with the
+/// specification routing logic) and, exactly as `NetworkSimulator::dispatch` does, the resulting
+/// local action through the real `LocalNetworkSimulation::handle_local_routing_action` at the router
+/// the traversal ended at.  Recorded: the packet as injected, the packet as it stood at that router
+/// (the traversal updates path pointers / SegIDs in place: this is the offending packet the router
+/// has in hand when it raises the error), and the reply.
+fn gen_net(rng: &mut Rng, o: &mut Out, w: &World) {
+    use pocketscion::network::scion::{routing::{ScionNetworkTime, spec::SpecRoutingLogic}, simulator::ScionNetworkSim};
+    let (src, dst, pathb, ifs) = rng.pick(&w.paths).clone();
+    let scenario = rr(2, 11);
+    let mut topo = w.topo.clone();
+    let mut now = w.ts + 100;
+    let mut ignore_macs = false;
+    let mut ingress_if = 0u16;
+    let mut pb = pathb.clone();
+    let mut dst_ia = dst;
+    let nseg = [(pb[1] & 3) as usize * 16 + (pb[2] >> 4) as usize, ((pb[2] & 15) as usize) * 4 + (pb[3] >> 6) as usize, (pb[3] & 63) as usize];
+    let ninfo = nseg.iter().filter(|&&x| x > 0).count();
+    let nhops: usize = nseg.iter().sum();
+    let hop_off = |j: usize| 4 + 8 * ninfo + 12 * j;
+    // (expected SCMP type, expected code; 0,0 = whatever the simulator decides)
+    let (name, exp): (&str, (u8, u8)) = match scenario {
+        0 | 9 | 10 => {
+            // a link of the path is down
+            if ifs.is_empty() { o.sm.count("net.skipped-no-interfaces"); return; }
+            let (ia, id) = *rng.pick(&ifs);
+            match topo.mut_scion_link(&IsdAsn(ia), id) { Some(l) => l.set_is_up(false), None => { o.sm.count("net.skipped-no-link"); return; } }
+            ("link-down", (5, 0))
+        }
+        1 => { let j = rng.below(nhops as u64) as usize; pb[hop_off(j) + 6 + rng.below(6) as usize] ^= 0x41; ("bad-mac", (4, 51)) }
+        2 => { now = w.ts + 40 * 86400; ("expired", (4, 52)) }
+        3 => { now = w.ts - 5000; ("future", (4, 48)) }
+        4 => { dst_ia = if dst == C1 { L1 } else { C1 }; ("non-local", (4, 35)) }
+        5 => ("no-receiver", (1, 3)),
+        6 => { ingress_if = 9; ("wrong-ingress", (4, 0)) }
+        7 => { ignore_macs = true; let j = rng.below(nhops as u64) as usize; let f = hop_off(j) + 2 + 2 * rng.below(2) as usize; pb[f] = 3; pb[f + 1] = 0xe7; ("unknown-interface", (0, 0)) }
+        _ => { ignore_macs = true; // segments swapped / pointers moved: invalid segment change or advance failure
+               if ninfo >= 2 { let (a, b) = (4usize, 12usize); for k in 0..8 { pb.swap(a + k, b + k); } } else { pb[0] = (pb[0] & 0xc0) | (nhops as u8 - 1); }
+               ("path-mangled", (0, 0)) }
+    };
+    // the offending packet: UDP mostly; an SCMP error (must not be answered) or an echo request
+    let mut p = Pkt { next: 17, dst_ia, src_ia: src, dst: Host::v4([10, 0, 0, 2]), src: if rng.chance(1, 4) { rnd_host(rng, false) } else { Host::v4([10, 0, 0, 1]) },
+                      path: PathSpec::Raw { pt: 1, data: pb }, payload: vec![], plen: None, cut: None };
+    let hdr = p.bytes().len();
+    let t = 1232usize.saturating_sub(36 + pathb.len()).saturating_sub(if exp.0 == 5 { 20 } else { 8 });
+    let total = match rng.below(6) { 0 => hdr + 8, 1 => hdr + 60, 2 | 3 => (t + rng.range(0, 4) as usize).saturating_sub(2).max(hdr + 8), 4 => 1400, _ => 3000 + rng.below(4000) as usize };
+    let body = total.saturating_sub(hdr + 8);
+    let data = rnd_bytes(rng, body);
+    match scenario {
+        9 => { p.next = 202; p.payload = scmp_msg(&p, *rng.pick(&[1u8, 4, 5, 3, 100]), 0, &data, true); }
+        10 => { p.next = 202; p.payload = scmp_msg(&p, 128, 0, &data, true); }
+        _ => { p.payload = udp_dgram(&p, 4000, 5000, &data, None); }
+    }
+    let inj = p.bytes();
+    let Ok(mut boxed) = ScionRawPacketView::try_from_boxed(inj.clone().into_boxed_slice()) else { o.sm.count("net.skipped-unboxable"); return; };
+    let src_ia = IsdAsn(src);
+    let r = std::panic::catch_unwind(AssertUnwindSafe(|| {
+        let out = ScionNetworkSim::simulate_traversal::<SpecRoutingLogic>(&topo, &mut boxed, ScionNetworkTime::from_timestamp_secs(now), src_ia, ingress_if, ignore_macs);
+        let Ok(out) = out else { return (4u64, vec![], vec![], 0u64) };
+        let at = boxed.as_slice().to_vec();
+        let at_as = out.at_as.0;
+        let router = topo.get_router(&out.at_as, out.at_ingress_interface);
+        // a receiver for the whole SOURCE AS: a reply to a packet that originated in the AS where the
+        // error is raised is not returned but delivered inside that AS
+        let got: std::sync::Arc<std::sync::Mutex<Vec<Vec<u8>>>> = Default::default();
+        let mut receivers = NetworkReceiverRegistry::new();
+        let _ = receivers.add_wildcard_receiver(src_ia, std::sync::Arc::new(Capture(got.clone())));
+        let external = ExternalAsRegistry::new();
+        let sim = LocalNetworkSimulation::new(out.at_as, out.at_ingress_interface, &receivers, &external, router);
+        match sim.handle_local_routing_action(out.action, &mut boxed) {
+            Err(_) => (2, at, vec![], at_as),
+            Ok(None) => { let g = got.lock().unwrap(); if g.len() == 1 { (1, at, g[0].clone(), at_as) } else if g.is_empty() { (0, at, vec![], at_as) } else { (5, at, vec![], at_as) } }
+            Ok(Some(reply)) => match reply.try_encode_to_vec() { Ok(b) => (1, at, b, at_as), Err(_) => (3, at, vec![], at_as) },
+        }
+    }));
+    let (oc, at, out, at_as) = r.unwrap_or((99, vec![], vec![], 0));
+    if oc == 4 { o.sm.count(&format!("net.{name}.traversal-error")); return; }
+    o.sm.count(&format!("net.{name}.oc{oc}"));
+    if oc == 1 { o.sm.count(&format!("net.reply.ty{}", out.get(4 * out[5] as usize).copied().unwrap_or(0))); }
+    o.sm.count(if inj.len() > t { "net.offending-above-truncation" } else { "net.offending-below-truncation" });
+    let plain_src = p.src.nib == 0 && p.src.raw[0] < 224 || p.src.nib == 3 && p.src.raw[0] != 0xff;
+    let expect_reply = scenario != 9 && scenario != 8 && plain_src;
+    o.push("net", format!("CNet {} {} {} {} {} {at_as} {oc} {}", coq_rle(&inj), coq_rle(&at), exp.0, exp.1, coq_bool(expect_reply), coq_rle(&out)),
+           format!("routing {name} {}->{} next={} offending={}B (path {}B) at {:x} -> oc={oc} reply={}B", src & 0xfff, dst & 0xfff, p.next, inj.len(), pathb.len(), at_as, out.len()), true);
+}
+
 fn emsg_fields(m: &ScmpErrorMessage) -> ([u64; 5], Vec<u8>) {
     match m {
         ScmpErrorMessage::DestinationUnreachable(x) => ([1, u8::from(x.code) as u64, 0, 0, 0], x.get_offending_packet().to_vec()),
@@ -706,10 +843,13 @@ fn main() {
     let pre = "From Sci Require Import Scmp.Cases. Open Scope N_scope.";
     let mut o = Out { sh: Shards::new(&out, pre, "scase", "verdicts", 40), sm: Summary::default(),
                       seen: Default::default(), distinct: 0 };
+    let world = build_world();
+    if world.is_none() { o.sm.count("net.world-not-built"); }
     for i in 0..n {
         match i % 16 {
-            0 | 1 | 2 => gen_layout(&mut rng, &mut o),
-            3 | 4 | 5 | 6 => gen_encode(&mut rng, &mut o),
+            0 | 1 => gen_layout(&mut rng, &mut o),
+            2 | 6 | 15 => match &world { Some(w) => gen_net(&mut rng, &mut o, w), None => gen_layout(&mut rng, &mut o) },
+            3 | 4 | 5 => gen_encode(&mut rng, &mut o),
             7 => gen_gateway(&mut rng, &mut o),
             8 | 9 | 10 | 11 => gen_handler(&mut rng, &mut o),
             12 => gen_sim(&mut rng, &mut o),
